@@ -67,8 +67,12 @@ def capture():
     def wrapped(self, *a, **k):
         # one entry per solve request (optlang itself may call GLPK more than once per request: presolve retry)
         self.update()
-        got.append(raw_dump(self.problem))
-        return orig(self, *a, **k)
+        d = raw_dump(self.problem)
+        got.append(d)
+        st = orig(self, *a, **k)
+        # what the solver answered: status and, when optimal, the objective value it reports
+        d["answer"] = {"status": st, "value": (self.objective.value if st == "optimal" else None)}
+        return st
     oi.Model.optimize = wrapped
     try:
         yield got
@@ -400,6 +404,67 @@ def compare_sampler(pairs, label, stats, broken, case=None):
     return bad
 
 
+def certify_answers(pairs, label: str, stats: dict, broken: list, case=None, limit=12, tol=1e-6):
+    """GLPK's answer for a captured problem vs the certified answer for the problem the Lean builder produces (which the comparison above has shown to
+    be the same problem): the dense form comes from the Lean driver, the exact simplex (untrusted) proposes a certificate, the driver accepts it only
+    through `Prob.certOpt` / `Prob.certInfeas` (proved sound in Lemmas/AuxProb.lean).  Only continuous problems."""
+    import exact_lp
+    import lpcert
+    todo = [(l, g) for l, g in pairs if g.get("answer") and not any(v[2] != "continuous" for v in g["vars"].values())][:limit]
+    if not todo:
+        return
+    dense = predicted([dict(l, want="dense") for l, _ in todo])
+    bad = []
+    EPS = F(1, 10 ** 6)
+
+    def widen(lo, hi):
+        return (None if lo is None else lo - EPS * (1 + abs(lo)), None if hi is None else hi + EPS * (1 + abs(hi)))
+    for (line, got), d in zip(todo, dense):
+        if not d.get("closed"):
+            continue
+        F_ = lambda x: None if x is None else F(x)
+        lp = (d["n"], [(F_(a), F_(b)) for a, b in d["vb"]], [([F(c) for c in r[0]], F_(r[1]), F_(r[2])) for r in d["rows"]], [F(c) for c in d["obj"]])
+        # (1) the problem itself, exactly: a certificate accepted through Prob.certOpt / certInfeas
+        res = exact_lp.solve(*lp)
+        cert = {"kind": res[0]}
+        if res[0] == "optimal":
+            cert.update(x=[lpcert.q(v) for v in res[1]], y=[lpcert.q(v) for v in res[2]])
+        elif res[0] == "infeasible":
+            cert.update(y=[lpcert.q(v) for v in res[1]])
+        else:
+            cert.update(x=[lpcert.q(v) for v in res[1]], z=[lpcert.q(v) for v in res[2]])
+        verdict = predicted([dict(line, want="cert", **cert)])[0]
+        if not verdict.get("ok"):
+            raise RuntimeError(f"certificate rejected by the Lean checker for {line['build']} ({res[0]})")     # harness error, never a verdict
+        stats[label + " (answers certified)"] = stats.get(label + " (answers certified)", 0) + 1
+        sign = 1 if d["max"] else -1
+        lower = sign * F(verdict["value"]) if res[0] == "optimal" else None          # in the dense (maximisation) form
+        # (2) the same problem with every finite bound widened by 1e-6 (relative): what a solver working with a feasibility tolerance of 1e-7 may
+        # legitimately reach.  Numbers cobrapy takes from a float solve (fraction x optimum, start fluxes) make the exact problem infeasible by 1e-16
+        # now and then; the solver's answer has to lie between the two certified optima
+        relaxed = (lp[0], [widen(a, b) for a, b in lp[1]], [(co, *widen(lo, hi)) for co, lo, hi in lp[2]], lp[3])
+        rc = lpcert.certify([relaxed])[0]
+        upper = rc["value"] if rc["status"] == "optimal" else (None if rc["status"] == "unbounded" else "infeasible")
+        ans = got["answer"]
+        msg = None
+        if ans["status"] == "optimal":
+            g = sign * ans["value"]
+            if upper == "infeasible":
+                msg = f"the solver reports an optimum ({ans['value']}) for a problem that stays infeasible when every bound is widened by 1e-6 (certified)"
+            elif upper is not None and g > float(upper) + tol * (1 + abs(float(upper))):
+                msg = f"the solver reports {ans['value']}, beyond the certified optimum {float(sign * upper)} of the problem with every bound widened by 1e-6"
+            elif lower is not None and g < float(lower) - tol * (1 + abs(float(lower))):
+                msg = f"the solver reports the optimum {ans['value']}, the certified optimum of the same problem is {float(sign * lower)}"
+        elif ans["status"] == "infeasible" and lower is not None:
+            msg = f"the solver reports infeasible for a problem with the certified optimum {float(sign * lower)}"
+        if msg:
+            bad.append(msg)
+            if len(broken) < 5:
+                broken.append({"kind": "assumption", "name": f"SolverOK: GLPK's answer for the problem of {label} (AuxM.Net.{line['build']})",
+                               "detail": [msg], "builder_call": {k: v for k, v in line.items() if k != "net"}, "net": line["net"], "case": case})
+    return bad
+
+
 def compare(pairs, label: str, stats: dict, broken: list, case=None):
     """Run the builder lines through the Lean driver and diff with what was captured.  Mismatches go to `broken` (a correspondence
     that no longer holds is not by itself a violation: the caller searches for a failing input)."""
@@ -425,7 +490,7 @@ def compare(pairs, label: str, stats: dict, broken: list, case=None):
 SCAN = ["CobraModel/Lemmas/AuxProb.lean", "CobraModel/Model/AuxProb.lean", "CobraModel/Lemmas/SplitRange.lean"]
 
 
-def stage(ctx, plan, gen_spec, n_specs, build=None):
+def stage(ctx, plan, gen_spec, n_specs, build=None, certify=True):
     """Captured-problem correspondence for one property.  plan: [(label, fn(make_model, spec, rng) -> pairs)].
     Uses its own PRNG (derived from the run's seed) so that the oracle's case stream is what it was.  Returns the specs on
     which a builder and the captured problem differ, with the label, for the directed failing-input search."""
@@ -435,6 +500,7 @@ def stage(ctx, plan, gen_spec, n_specs, build=None):
     build = build or coreops.build_model
     rng = random.Random(f"aux-{ctx.pid}-{ctx.seed}-{ctx.attempt}")
     stats, broken, errors, mism = {}, [], {}, []
+    certified, budget = 0, (150 if ctx.tier == "quick" else 1500)
     for _ in range(n_specs):
         spec = gen_spec(rng)
         for label, fn in plan:
@@ -445,6 +511,12 @@ def stage(ctx, plan, gen_spec, n_specs, build=None):
                 bad = compare(pairs, label, stats, broken, case=spec)
                 if bad:
                     mism.append({"spec": spec, "label": label, "diff": bad[0]})
+                elif certify and certified < budget:
+                    before = sum(v for k, v in stats.items() if k.endswith("(answers certified)"))
+                    wrong = certify_answers(pairs, label, stats, broken, case=spec, limit=4)
+                    certified += sum(v for k, v in stats.items() if k.endswith("(answers certified)")) - before
+                    if wrong:
+                        mism.append({"spec": spec, "label": label, "diff": wrong})
             except Exception as e:
                 from cobra.exceptions import OptimizationError
                 k = f"{label}: {type(e).__name__}"
@@ -459,9 +531,13 @@ def stage(ctx, plan, gen_spec, n_specs, build=None):
                     mism.append({"spec": spec, "label": label, "diff": [f"raised {type(e).__name__}: {e}"]})
     ctx.broken += broken
     ctx.coverage["captured_problem_correspondence"] = {
-        "compared": stats, "models": n_specs, "not_built": errors, "mismatches": len(mism),
+        "compared": {k: v for k, v in stats.items() if not k.endswith("(answers certified)")},
+        "answers_certified": {k[:-len(" (answers certified)")]: v for k, v in stats.items() if k.endswith("(answers certified)")},
+        "models": n_specs, "not_built": errors, "mismatches": len(mism),
         "rule": "whole solver problem predicted by the Lean builder (lean/CobraModel/Model/AuxProb.lean) vs the raw GLPK problem read at the "
-                "moment cobrapy asks for the solve: variables, boxes, kinds, row names, row bounds, coefficients, objective, direction (exact rationals)",
+                "moment cobrapy asks for the solve: variables, boxes, kinds, row names, row bounds, coefficients, objective, direction (exact rationals); "
+                "answers_certified: GLPK's status / optimum for a captured continuous problem vs the optimum of the Lean-built problem certified through "
+                "Prob.certOpt / certInfeas (certOpt_isOpt, certInfeas_sound)",
     }
     return mism
 
